@@ -568,6 +568,11 @@ impl Stream {
             let pending_entries = group.add_pending(consumer_name, entries.clone());
             Ok(pending_entries)
         } else {
+            // NOACK deliveries are not pending but still move the group's cursor
+            if let Some(last) = entries.last() {
+                group.create_consumer(consumer_name.to_string());
+                group.advance_last_id(last.id);
+            }
             Ok(entries)
         }
     }
